@@ -212,6 +212,13 @@ class Fail:
 
 
 PACK = ("pack", "pack", None)
+SAME_OBJECT = "~own-object-changed-in-place"
+
+
+def same_object_src(var, attr, argsrc):
+    """python source of a SAME_OBJECT event"""
+    return (f"cur = {var}.{attr}\nif not isinstance(cur, (bytearray, list)):\n    cur = bytearray(cur) if isinstance(cur, (bytes, bytearray)) else list(cur or [])\n"
+            f"    {var}.{attr} = cur\nnew = {argsrc}\ncur[:] = bytes(new) if isinstance(cur, bytearray) else list(new)\n{var}.{attr} = cur  # the same object again")
 
 
 # ======================================================================================================
@@ -284,6 +291,11 @@ class Machine:
     def octets_judged(self, model):
         return True
 
+    def representable(self, model):
+        """False when the values last set cannot be carried by the format at all (a payload beyond the 16-bit length field): then
+        pack() must refuse - octets would have a length field that lies"""
+        return True
+
     def repro(self, model0, start, names):
         return None
 
@@ -295,6 +307,19 @@ class Machine:
             return
         if attr == "set_frame_len_in_header":
             obj.set_frame_len_in_header()
+            self.update(model, attr, spec)
+            return
+        if name.endswith(SAME_OBJECT):
+            # the caller keeps its own mutable container (bytearray / list) as the attribute's value, changes it IN PLACE to the new
+            # value and assigns the very same object again (`pdu.segment_requests += [...]`, a re-used transmit buffer)
+            tgt = self.target(obj, attr)
+            new = self.make_arg(attr, spec)
+            cur = getattr(tgt, attr)
+            if not isinstance(cur, (bytearray, list)):
+                cur = bytearray(cur) if isinstance(cur, (bytes, bytearray)) else list(cur or [])
+                setattr(tgt, attr, cur)
+            cur[:] = bytes(new) if isinstance(cur, bytearray) else list(new)
+            setattr(tgt, attr, cur)
             self.update(model, attr, spec)
             return
         arg = self.make_arg(attr, spec)
@@ -502,6 +527,10 @@ class CfdpMachine(Machine):
                 ev += [("segment_metadata=2", "segment_metadata", [2, 2])]
         elif k == "KeepAlivePdu":
             ev += [("file_flag=NORMAL", "file_flag", 0), ("file_flag=LARGE", "file_flag", 1)]
+        so = {"FinishedPdu": ("file_store_responses=[r2]", "file_store_responses", [RESP_B]), "MetadataPdu": ("options=[tlv2]", "options", [OPT_B]),
+              "NakPdu": ("segment_requests=2", "segment_requests", [[7, 8], [9, 0x0A0B]]), "FileDataPdu": ("file_data=7", "file_data", [7, 0])}.get(k)
+        if so:
+            ev.append((so[0] + SAME_OBJECT, so[1], so[2]))
         return ev + [PACK]
 
     @staticmethod
@@ -565,11 +594,13 @@ class CfdpMachine(Machine):
         lines = [U.ctor_source(self.kind, cfg, model0["p"])]
         if start == "decoded":
             lines.append(f"pdu = {self.kind}.unpack(bytes(pdu.pack()))")
-        evs = {e[0]: e for e in self.menu("b") + self.menu("t")}
+        evs = {e[0]: e for e in self.menu("b") + self.menu("t") + self.menu("q")}
         for n in names:
             _, attr, spec = evs[n]
             if attr == "pack":
                 lines.append("pdu.pack()")
+            elif n.endswith(SAME_OBJECT):
+                lines.append(same_object_src("pdu", attr, self._arg_source(attr, spec)))
             else:
                 lines.append(f"pdu.{attr} = {self._arg_source(attr, spec)}")
         lines.append("raw = bytes(pdu.pack())")
@@ -635,13 +666,17 @@ class TcMachine(Machine):
     def menu(self, level):
         t = level == "t"
         if level == "b":
-            return [("app_data=40000", "app_data", 40000), ("app_data=65529", "app_data", 65529), ("app_data=2", "app_data", 2), ("apid=0x123", "apid", 0x123), PACK]
+            return [("app_data=40000", "app_data", 40000), ("app_data=65529", "app_data", 65529), ("app_data=65530(too long)", "app_data", 65530), ("app_data=2", "app_data", 2),
+                    ("apid=0x123", "apid", 0x123), PACK]
         ev = [("app_data=0", "app_data", 0), ("app_data=1", "app_data", 1), ("app_data=2", "app_data", 2), ("app_data=4", "app_data", 4)]
         if t:
             ev += [("app_data=300", "app_data", 300), ("app_data=4ba", "app_data", -4)]
         ev += [("apid=0x7ff", "apid", 0x7FF), ("apid=0x123", "apid", 0x123)] + ([("apid=0", "apid", 0)] if t else [])
         ev += [("seq_count=0x3fff", "seq_count", 0x3FFF), ("seq_count=0", "seq_count", 0)] + ([("seq_count=0x234", "seq_count", 0x234)] if t else [])
         ev += [("source_id=0xffff", "source_id", 0xFFFF), ("source_id=0", "source_id", 0)] + ([("source_id=0x55aa", "source_id", 0x55AA)] if t else [])
+        if not t:
+            ev.append(("app_data=2ba", "app_data", -2))  # a bytearray of the caller's, which the telecommand then holds
+        ev.append(("app_data=3" + SAME_OBJECT, "app_data", 3))
         return ev + [PACK]
 
     @staticmethod
@@ -687,16 +722,20 @@ class TcMachine(Machine):
     def lenfield(self, raw, model):
         return int.from_bytes(raw[4:6], "big"), len(raw) - 7
 
+    def representable(self, model):
+        return 6 + 5 + len(model["p"]["data"]) + 2 <= 65542
+
     def repro(self, model0, start, names):
         p = model0["p"]
         lines = ["from spacepackets.ecss.tc import PusTc",
                  f"tc = PusTc({p['svc']}, {p['sub']}, apid={p['apid']:#x}, app_data={bytes(p['data'])!r}, seq_count={p['seq']:#x}, source_id={p['src']:#x}, ack_flags={p['ack']:#x})"]
         if start == "decoded":
             lines.append("tc = PusTc.unpack(bytes(tc.pack()))")
-        evs = {e[0]: e for e in self.menu("b") + self.menu("t")}
+        evs = {e[0]: e for e in self.menu("b") + self.menu("t") + self.menu("q")}
         for n in names:
             _, attr, spec = evs[n]
-            lines.append("tc.pack()" if attr == "pack" else f"tc.{attr} = {_short_src(self.make_arg(attr, spec))}")
+            lines.append("tc.pack()" if attr == "pack" else same_object_src("tc", attr, _short_src(self.make_arg(attr, spec))) if n.endswith(SAME_OBJECT)
+                         else f"tc.{attr} = {_short_src(self.make_arg(attr, spec))}")
         lines += ["raw = bytes(tc.pack())", "assert tc.packet_len == len(raw) and int.from_bytes(raw[4:6], 'big') == len(raw) - 7", "assert bytes(tc.pack()) == raw"]
         return "\n".join(lines)
 
@@ -718,12 +757,16 @@ class TmMachine(Machine):
     def menu(self, level):
         t = level == "t"
         if level == "b":
-            return [("tm_data=40000", "tm_data", 40000), ("tm_data=65000", "tm_data", 65000), ("tm_data=2", "tm_data", 2), ("apid=0x123", "apid", 0x123), PACK]
+            return [("tm_data=40000", "tm_data", 40000), ("tm_data=65000", "tm_data", 65000), ("tm_data=65535(too long)", "tm_data", 65535), ("tm_data=2", "tm_data", 2),
+                    ("apid=0x123", "apid", 0x123), PACK]
         ev = [("tm_data=0", "tm_data", 0), ("tm_data=1", "tm_data", 1), ("tm_data=2", "tm_data", 2), ("tm_data=4", "tm_data", 4)]
         if t:
             ev += [("tm_data=300", "tm_data", 300), ("tm_data=4ba", "tm_data", -4)]
         ev += [("apid=0x7ff", "apid", 0x7FF), ("apid=0x123", "apid", 0x123)] + ([("apid=0", "apid", 0)] if t else [])
         ev += [("seq_flags=FIRST", "seq_flags", 1), ("seq_flags=UNSEG", "seq_flags", 3)] + ([("seq_flags=CONT", "seq_flags", 0), ("seq_flags=LAST", "seq_flags", 2)] if t else [])
+        if not t:
+            ev.append(("tm_data=2ba", "tm_data", -2))
+        ev.append(("tm_data=3" + SAME_OBJECT, "tm_data", 3))
         return ev + [PACK]
 
     _data = staticmethod(TcMachine._data)
@@ -776,16 +819,20 @@ class TmMachine(Machine):
     def lenfield(self, raw, model):
         return int.from_bytes(raw[4:6], "big"), len(raw) - 7
 
+    def representable(self, model):
+        return 6 + 7 + len(model["p"]["ts"]) + len(model["p"]["data"]) + 2 <= 65542
+
     def repro(self, model0, start, names):
         p = model0["p"]
         lines = ["from spacepackets.ecss.tm import PusTm", "from spacepackets.ccsds.spacepacket import SequenceFlags",
                  f"tm = PusTm({p['svc']}, {p['sub']}, {bytes(p['ts'])!r}, {bytes(p['data'])!r}, {p['apid']:#x}, {p['seq']:#x}, {p['mc']:#x}, {p['tref']}, {p['dest']:#x}, {p['ver']})"]
         if start == "decoded":
             lines.append(f"tm = PusTm.unpack(bytes(tm.pack()), {len(p['ts'])})")
-        evs = {e[0]: e for e in self.menu("b") + self.menu("t")}
+        evs = {e[0]: e for e in self.menu("b") + self.menu("t") + self.menu("q")}
         for n in names:
             _, attr, spec = evs[n]
-            lines.append("tm.pack()" if attr == "pack" else f"tm.{attr} = {('SequenceFlags(%d)' % spec) if attr == 'seq_flags' else _short_src(self.make_arg(attr, spec))}")
+            lines.append("tm.pack()" if attr == "pack" else same_object_src("tm", attr, _short_src(self.make_arg(attr, spec))) if n.endswith(SAME_OBJECT)
+                         else f"tm.{attr} = {('SequenceFlags(%d)' % spec) if attr == 'seq_flags' else _short_src(self.make_arg(attr, spec))}")
         lines += ["raw = bytes(tm.pack())", "assert tm.packet_len == len(raw) and int.from_bytes(raw[4:6], 'big') == len(raw) - 7", "assert bytes(tm.pack()) == raw"]
         return "\n".join(lines)
 
@@ -910,7 +957,7 @@ class UslpMachine(Machine):
                 lines.append(f"frame = TransferFrame.unpack(raw0, FrameType.FIXED, FixedFrameProperties(fixed_len=len(raw0), {args}))")
             else:
                 lines.append(f"frame = TransferFrame.unpack(raw0, FrameType.VARIABLE, VarFrameProperties(truncated_frame_len=12, {args}))")
-        evs = {e[0]: e for e in self.menu("b") + self.menu("t")}
+        evs = {e[0]: e for e in self.menu("b") + self.menu("t") + self.menu("q")}
         synced = h["frame_len"] == self._total(p) - 1
         for n in names:
             _, attr, spec = evs[n]
@@ -956,11 +1003,20 @@ def M(name):
 # history execution and oracle
 # ======================================================================================================
 class Run:
-    __slots__ = ("obj", "model", "held", "fail", "purity", "skip")
+    __slots__ = ("obj", "model", "held", "fail", "purity", "skip", "refused")
 
     def __init__(self):
         self.obj = self.model = self.fail = self.skip = None
+        self.refused = False
         self.held, self.purity = [], []
+
+
+def _safe_repro(mach, model0, start, names):
+    """the repro text is a convenience: a failure to render it must never turn a verdict into a harness error"""
+    try:
+        return mach.repro(model0, start, names)
+    except Exception as e:  # noqa: BLE001
+        return "# repro source not available (%s: %s); use the replay file" % (type(e).__name__, e)
 
 
 def culprit_of(start, evs):
@@ -1002,6 +1058,15 @@ def run_history(mach, cfg, init, start, evs, judge_ctor=True):
         try:
             mach.apply(r.obj, ev, r.model, r.held)
         except Exception as e:
+            trial = copy.deepcopy(r.model)
+            if ev[1] not in ("pack", "set_frame_len_in_header"):
+                try:
+                    mach.update(trial, ev[1], ev[2])
+                except Exception:  # noqa: BLE001
+                    pass
+            if not mach.representable(trial):
+                r.refused = True  # values the format cannot carry were refused (by the setter or by pack()): the history ends here
+                return r
             r.fail = Fail("exception", ("pack-raises" if ev[1] == "pack" else f"{ev[1]}-raises"), repr(e), "accepted: the value is legal")
             return r
     return r
@@ -1021,6 +1086,12 @@ def oracle(mach, r, twin):
         return [Fail("exception", "reported-length-raises", repr(e), None)], None
     eq0 = (safe_eq(obj, twin), safe_eq(twin, obj))
     hb = held_dump(r.held)
+    if not mach.representable(model):
+        try:
+            rawx = bytes(obj.pack())
+        except Exception:
+            return [], None  # refused: right (which exception is C02 / C03's business)
+        return [Fail("octets", "values-beyond-the-length-field-packed", {"len(pack())": len(rawx), "octets": rawx[:16]}, "pack() refuses")], None
     try:
         raw1 = bytes(obj.pack())
     except Exception as e:
@@ -1071,6 +1142,8 @@ def evaluate(mach, cfg, init, start, evs):
         return r, [], None, None
     if r.fail:
         return r, [r.fail], None, None
+    if r.refused:
+        return r, [], None, None
     key = (dump(r.obj), repr(U.hexed(r.model)))
     twin = run_history(mach, cfg, init, start, evs, judge_ctor=False)
     fails, raw = oracle(mach, r, twin.obj)
@@ -1111,12 +1184,12 @@ def report(rec, mach, cfg, ii, init, start, evs, r, fail, seen_purity=None):
             if mach.family == "cfdp" and kind.startswith("constructor"):
                 repro = purity_repro(mach.kind, cfg, init, 1 - R.DIRECTION[mach.kind])
             else:
-                repro = mach.repro({"cfg": cfg, "p": init}, start, pnames)
+                repro = _safe_repro(mach, {"cfg": cfg, "p": init}, start, pnames)
             rec.violation(sig, case_of(mach, cfg, ii, start, pnames), path, "identical deep dump before and after", repro=repro)
     if fail is not None:
         sig = f"C11.{fail.clause}/{mach.name}/{fail.kind}/after={culprit_of(start, evs)}"
         rec.violation(sig, case, fail.observed, fail.expected, note=f"history: start={start} ; " + " ; ".join(names),
-                      repro=mach.repro({"cfg": cfg, "p": init}, start, names))
+                      repro=_safe_repro(mach, {"cfg": cfg, "p": init}, start, names))
 
 
 def account(rec, mach, evs, start, fails, new, raw, forms):
@@ -1128,7 +1201,7 @@ def account(rec, mach, evs, start, fails, new, raw, forms):
         rec.outcome(f"{mach.name}/inherited:{'+'.join(f.clause for f in fails)}")
         rec.count("histories_through_an_already_reported_violating_state")
     else:
-        rec.outcome(f"{mach.name}/ok/len={len(raw)}")
+        rec.outcome(f"{mach.name}/ok/len={len(raw)}" if raw is not None else f"{mach.name}/values-beyond-the-format-refused")
 
 
 # ======================================================================================================
@@ -1688,7 +1761,7 @@ def replay(case):
     mach = M(case["m"])
     cfg = case["cfg"]
     init = mach.inits(cfg)[case["init"]]
-    by_name = {e[0]: e for e in mach.events("b") + mach.events("t")}
+    by_name = {e[0]: e for e in mach.events("b") + mach.events("t") + mach.events("q")}
     evs = [by_name[n] for n in case["seq"]]
     parent = frozenset()
     if evs:
